@@ -194,6 +194,16 @@ def queue_rules(fb, R):
             methods.setdefault(f.clsT, []).append(f)
     for rec in recs:
         F = _queue_fields(rec)
+        plain = [fd['name'] for fd in rec.fields if fd['tC'] in ('bool', 'volatile bool')]
+        if 'flag' not in F and len(plain) == 1:
+            # the in-use flag is stored before the lock is taken (shutdown) and read without it (push, in_use, wait predicates):
+            # as a plain bool every such pair is a data race
+            R.bad('Q1-flag-is-atomic', '%s#in-use-flag' % Q, '%s:%d' % (rec.file, rec.line),
+                  'the queue\'s in-use flag `%s` is a plain bool; it is read and written outside the mutex (push(), in_use(), shutdown()), '
+                  'so it must be std::atomic<bool>' % plain[0])
+            return
+        if 'flag' in F:
+            R.ok('Q1-flag-is-atomic', '%s#in-use-flag' % Q, '%s:%d' % (rec.file, rec.line))
         for need in ('queue', 'mutex', 'flag', 'max'):
             if need not in F:
                 R.broken('%s: cannot identify the %s member by type' % (rec.full, need))
@@ -863,6 +873,7 @@ def run(ctx):
         fb = ctx.facts(['thread'], cfg)
         queue_rules(fb, R)
         pool_rules(fb, R)
+    R.expect('Q1-flag-is-atomic', 1)
     R.expect('Q1-access-under-lock', 6)  # 8 today; a bare wait loop instead of a predicate lambda or a merged accessor lowers the count
     R.expect('Q2-insert-notifies-consumers', 1)
     R.expect('Q3-remove-notifies-producers', 2)
